@@ -1,6 +1,7 @@
 (* C08 -- parallel runs are outcome-equivalent to the serial run.  Statements only. *)
 From Coq Require Import Permutation.
 From DoitV Require Import Base Dispatch Runner Parallel DispatchP DispatchInv RunnerTr RunnerP ParallelP OutcomeP.
+From DoitV Require Import AncP HoldP CompleteP TermP LiveP OutcomeSpec OutcomeFunP OutcomeInvP OutcomeSerialP OutcomeParP OutcomeLiveP.
 Open Scope N_scope.
 
 (* The exit code is a function of the multiset of failure kinds that were reported: whatever order
@@ -64,3 +65,107 @@ Example C08_nonvacuous :
   code_of [EFailure 1 0; EFailure 2 2; EFailure 3 0] = 2 /\ code_of [EFailure 3 0; EFailure 1 0; EFailure 2 2] = 2 /\
   fold_left bump [2; 0] 0 = 2 /\ fold_left bump [0; 2] 0 = 2.
 Proof. vm_compute. auto. Qed.
+
+(* THE PER-TASK OUTCOME IS A FUNCTION OF THE TASK TABLE (and --always) ALONE.
+   [fin tasks always k r] (Proofs/OutcomeSpec.v) is a declarative specification of the final report r of
+   task k -- FIgnore / FUpToDate / FSuccess / FFail values kind -- by the rules of Runner.select_task /
+   process_task_result over the outcomes of the task's effective dependencies; no dispatcher, runner,
+   schedule, oracle or fuel occurs in it.  It is a partial function (no hypothesis on the table:
+   a task on a dependency cycle has no derivation): *)
+Theorem C08_outcome_spec_functional :
+  forall tasks always k r1 r2, fin tasks always k r1 -> fin tasks always k r2 -> r1 = r2.
+Proof. intros tasks always k r1 r2 H1 H2. exact (fin_functional tasks always k r1 H1 r2 H2). Qed.
+Print Assumptions C08_outcome_spec_functional.
+
+(* ... every final report of a SERIAL run is the report of the specified outcome ... *)
+Theorem C08_outcome_sound_serial :
+  forall tasks wake_rank calc_rank continue_ always fuel selection k e,
+    In e (fst (run_serial tasks wake_rank calc_rank continue_ always fuel selection)) -> is_final_ev k e = true ->
+    exists r, fin tasks always k r /\ e = ev_of k r.
+Proof. exact serial_outcome_sound. Qed.
+Print Assumptions C08_outcome_sound_serial.
+
+(* ... and so is every final report of a PARALLEL run: threads or processes, any number of workers,
+   EVERY schedule *)
+Theorem C08_outcome_sound_parallel :
+  forall tasks wake_rank calc_rank continue_ always proc fuel nprocs sched selection k e,
+    In (PE e) (fst (run_parallel tasks wake_rank calc_rank continue_ always proc fuel nprocs sched selection)) ->
+    is_final_ev k e = true ->
+    exists r, fin tasks always k r /\ e = ev_of k r.
+Proof. exact parallel_outcome_sound. Qed.
+Print Assumptions C08_outcome_sound_parallel.
+
+(* Hence a task that gets a final report in a serial run and in a parallel run over the same task table
+   gets the SAME report in both: same reporter call (success / up-to-date / ignored / failure), same
+   failure kind (TaskFailed / TaskError / UnmetDependency / DependencyError) -- whatever the selections,
+   the worker count, the schedule, the flavour, the set-iteration oracles, --continue, the fuel *)
+Theorem C08_serial_parallel_same_report :
+  forall tasks always wr1 cr1 co1 fuel1 sel1 wr2 cr2 co2 proc fuel2 nprocs sched sel2 k e1 e2,
+    In e1 (fst (run_serial tasks wr1 cr1 co1 always fuel1 sel1)) ->
+    In (PE e2) (fst (run_parallel tasks wr2 cr2 co2 always proc fuel2 nprocs sched sel2)) ->
+    is_final_ev k e1 = true -> is_final_ev k e2 = true -> e1 = e2.
+Proof.
+  intros tasks always wr1 cr1 co1 fuel1 sel1 wr2 cr2 co2 proc fuel2 nprocs sched sel2 k e1 e2 H1 H2 F1 F2.
+  destruct (serial_outcome_sound tasks wr1 cr1 co1 always fuel1 sel1 k e1 H1 F1) as (r1 & A1 & ->).
+  destruct (parallel_outcome_sound tasks wr2 cr2 co2 always proc fuel2 nprocs sched sel2 k e2 H2 F2) as (r2 & A2 & ->).
+  exact (fin_same_report tasks always k r1 r2 A1 A2).
+Qed.
+Print Assumptions C08_serial_parallel_same_report.
+
+(* the same for ANY two runs ([run_cfg]: serial or parallel with all their parameters) *)
+Theorem C08_same_outcome_any_two_runs :
+  forall tasks always (c1 c2 : run_cfg) k e1 e2,
+    In e1 (run_events tasks always c1) -> In e2 (run_events tasks always c2) ->
+    is_final_ev k e1 = true -> is_final_ev k e2 = true -> e1 = e2.
+Proof. exact same_outcome_any_two_runs. Qed.
+Print Assumptions C08_same_outcome_any_two_runs.
+
+(* With completeness of the serial runner (C02): a serial --continue run that ends normally reports
+   every selected task; whatever another run (serial, parallel) reports about such a task, the
+   serial run reports the very same event *)
+Theorem C08_complete_serial_vs_any_run :
+  forall tasks wake_rank calc_rank always fuel selection (c : run_cfg) x e,
+    let res := run_serial tasks wake_rank calc_rank true always fuel selection in
+    snd res <= 2 -> In x selection ->
+    In e (run_events tasks always c) -> is_final_ev x e = true -> In e (fst res).
+Proof. exact complete_serial_vs_any_run. Qed.
+Print Assumptions C08_complete_serial_vs_any_run.
+
+(* two serial --continue runs over a finite acyclic table (enough fuel, any oracles, any selection order):
+   unless an action interrupts one of them, every task selected in both gets the same report in both *)
+Theorem C08_acyclic_serial_runs_same_outcome :
+  forall tasks univ sel1 sel2, finite_table tasks univ -> (forall k, ~ reach tasks k k) ->
+  forall wr1 cr1 wr2 cr2 always fuel1 fuel2,
+  (enough_fuel tasks univ sel1 <= fuel1)%nat -> (enough_fuel tasks univ sel2 <= fuel2)%nat ->
+  let res1 := run_serial tasks wr1 cr1 true always fuel1 sel1 in
+  let res2 := run_serial tasks wr2 cr2 true always fuel2 sel2 in
+  snd res1 = 4 \/ snd res2 = 4 \/
+  forall x, In x sel1 -> In x sel2 -> exists e, is_final_ev x e = true /\ In e (fst res1) /\ In e (fst res2).
+Proof. exact acyclic_serial_runs_same_outcome. Qed.
+Print Assumptions C08_acyclic_serial_runs_same_outcome.
+
+(* the executable form of the specification (validated against run_serial / run_parallel on 36 tables
+   in Proofs/OutcomeSpecEx.v) only returns derivable outcomes *)
+Theorem C08_outcome_function_sound :
+  forall tasks always cfuel fuel k r, fin_fun tasks always cfuel fuel k = Some r -> fin tasks always k r.
+Proof. exact fin_fun_sound. Qed.
+Print Assumptions C08_outcome_function_sound.
+
+(* NOT PROVED: liveness of the PARALLEL runners (that a parallel run which is not cut short reports every
+   selected task); with it the set of per-task outcomes of a parallel run would EQUAL that of the serial
+   run.  What is proved: the two can never DISAGREE on a task, and the serial run is complete. *)
+
+(* non-vacuity: calc_dep task 1 fails in save_success (values visible), the task_dep it returns is ignored:
+   task 0 is reported ignored -- by the serial run and by a 2-worker parallel run *)
+Definition ex08 (n : name) : option task :=
+  match n with
+  | 0 => Some (Build_task [] [] [1] false false CkRun false OOk [] [] [])
+  | 1 => Some (Build_task [] [] [] false false CkRun false OSaveErr [2] [] [])
+  | 2 => Some (Build_task [] [] [] false true CkRun false OOk [] [] [])
+  | _ => None end.
+Example C08_outcome_nonvacuous :
+  In (ESkipIgnore 0) (fst (run_serial ex08 (fun _ _ => 0) (fun _ => 0) true false 100 [0])) /\
+  In (PE (ESkipIgnore 0)) (fst (run_parallel ex08 (fun _ _ => 0) (fun _ => 0) true false true 100 2 [1; 0; 1]%nat [0])) /\
+  In (EFailure 1 kind_dep) (fst (run_serial ex08 (fun _ _ => 0) (fun _ => 0) true false 100 [0])) /\
+  fin_fun ex08 false 20 10 0 = Some FIgnore /\ fin_fun ex08 false 20 10 1 = Some (FFail true kind_dep).
+Proof. vm_compute. tauto. Qed.
